@@ -396,13 +396,26 @@ pub fn run(ctx: &Ctx) {
         let mut vecs: Vec<Vec<U>> = pool.iter().map(|s| vec![*s; n]).collect();
         vecs.push((0..n).map(|i| pool[i % pool.len()]).collect());
         vecs.push((0..n).map(|i| pool[(i * 2 + 1) % pool.len()]).collect());
+        // every front end of the constant-time multiscalar code: Edwards and Ristretto, scalars by reference and by value
+        let rpoints: Vec<curve25519_dalek::ristretto::RistrettoPoint> = {
+            let rp = crate::props::c06::rpool(3);
+            (0..n).map(|i| rp[i % rp.len()].real).collect()
+        };
+        for shape in 0..4u8 {
+        let shape_name = ["EdwardsPoint::multiscalar_mul(&scalars)", "EdwardsPoint::multiscalar_mul(scalars by value)", "RistrettoPoint::multiscalar_mul(&scalars)", "RistrettoPoint::multiscalar_mul(scalars by value)"][shape as usize];
         let mut logs: Vec<Vec<Freed>> = Vec::new();
         for v in &vecs {
             ctx.eval(1);
             let scalars: Vec<Scalar> = v.iter().map(real::scalar).collect();
-            let case = json!({"kind": "heap_multiscalar", "n": n, "scalars": v.iter().map(|x| x.hex()).collect::<Vec<_>>()});
+            let case = json!({"kind": "heap_multiscalar", "call": shape_name, "n": n, "scalars": v.iter().map(|x| x.hex()).collect::<Vec<_>>()});
             ctx.case(&case.to_string());
-            match guarded(|| observe(|| EdwardsPoint::multiscalar_mul(scalars.iter(), points.iter()))) {
+            use curve25519_dalek::ristretto::RistrettoPoint;
+            match guarded(|| observe(|| match shape {
+                0 => EdwardsPoint::multiscalar_mul(scalars.iter(), points.iter()).compress().0,
+                1 => EdwardsPoint::multiscalar_mul(scalars.iter().copied(), points.iter()).compress().0,
+                2 => RistrettoPoint::multiscalar_mul(scalars.iter(), rpoints.iter()).compress().0,
+                _ => RistrettoPoint::multiscalar_mul(scalars.iter().copied(), rpoints.iter()).compress().0,
+            })) {
                 Err(e) => ctx.violation("heap.multiscalar_mul", &format!("panic: {}", e), case),
                 Ok((res, log)) => {
                     std::hint::black_box(res);
@@ -410,7 +423,8 @@ pub fn run(ctx: &Ctx) {
                     // no freed block may contain the radix-16 digit string or the bytes of any scalar
                     for (i, s) in scalars.iter().enumerate() {
                         let digits: Vec<u8> = curve25519_dalek::verif::as_radix_16(s).iter().map(|d| *d as u8).collect();
-                        if let Some((bi, off)) = find_leak(&log, &digits, 16).or_else(|| find_leak(&log, s.as_bytes(), 8)) {
+                        let naf: Vec<u8> = curve25519_dalek::verif::non_adjacent_form(s, 5).iter().map(|d| *d as u8).collect();
+                        if let Some((bi, off)) = find_leak(&log, &digits, 16).or_else(|| find_leak(&log, s.as_bytes(), 8)).or_else(|| find_leak(&log, &naf[..64], 32)) {
                             ctx.violation(
                                 "heap.multiscalar_mul",
                                 &format!("a freed block of {} bytes contains digits/bytes of secret scalar {} (offset {})", log[bi].size, i, off),
@@ -430,9 +444,10 @@ pub fn run(ctx: &Ctx) {
                 ctx.violation(
                     "heap.multiscalar_mul.differential",
                     &format!("freed blocks differ between two secret vectors (n = {}, vector {} vs 0, first differing block {:?} of sizes {:?})", n, i, which, lg.iter().map(|b| b.size).collect::<Vec<_>>()),
-                    json!({"kind": "heap_multiscalar_diff", "n": n, "vector": i}),
+                    json!({"kind": "heap_multiscalar_diff", "call": shape_name, "n": n, "vector": i}),
                 );
             }
+        }
         }
         // Scalar::batch_invert
         let mut blogs: Vec<Vec<Freed>> = Vec::new();
